@@ -429,21 +429,22 @@ func (m memberList) build() geom.Geometry {
 		for _, x := range m.ms {
 			ps = append(ps, x.MustAsPoint())
 		}
-		return geom.NewMultiPoint(ps).AsGeometry()
+		return ctorTwice(len(ps), func(i int) geom.Geometry { return ps[i].AsGeometry() }, func() geom.Geometry { return geom.NewMultiPoint(ps).AsGeometry() })
 	case "mls":
 		var ps []geom.LineString
 		for _, x := range m.ms {
 			ps = append(ps, x.MustAsLineString())
 		}
-		return geom.NewMultiLineString(ps).AsGeometry()
+		return ctorTwice(len(ps), func(i int) geom.Geometry { return ps[i].AsGeometry() }, func() geom.Geometry { return geom.NewMultiLineString(ps).AsGeometry() })
 	case "mpg":
 		var ps []geom.Polygon
 		for _, x := range m.ms {
 			ps = append(ps, x.MustAsPolygon())
 		}
-		return geom.NewMultiPolygon(ps).AsGeometry()
+		return ctorTwice(len(ps), func(i int) geom.Geometry { return ps[i].AsGeometry() }, func() geom.Geometry { return geom.NewMultiPolygon(ps).AsGeometry() })
 	}
-	return geom.NewGeometryCollection(m.ms).AsGeometry()
+	ms := m.ms
+	return ctorTwice(len(ms), func(i int) geom.Geometry { return ms[i] }, func() geom.Geometry { return geom.NewGeometryCollection(ms).AsGeometry() })
 }
 
 func (m memberList) emptyMember(t int) geom.Geometry {
